@@ -825,8 +825,11 @@ def rule_specials_and_start(ctx: Ctx, rule: str) -> None:
                 link = v[3]
                 if isdir is True:
                     okl = _tag(link).endswith('.is_symlink()') and _tag(link).startswith('elem(os.scandir(')
+                    if isinstance(link, bool):  # `is_dir and entry.is_symlink()`: the truth of the link test, decided on this row
+                        sl = [v for k, v in p.decisions.items() if k.endswith('.is_symlink()') and k.startswith('elem(os.scandir(')]
+                        okl = len(sl) == 1 and sl[0] is link
                 elif isdir is False:
-                    okl = link is False
+                    okl = link is False or (bool(ent) and _tag(link) == ent[0])  # `is_dir and entry.is_symlink()`: the false is_dir itself
                 else:
                     okl = False
                 if not okl:
@@ -941,8 +944,9 @@ def rule_globstar_handover(ctx: Ctx, rule: str) -> None:
                 okh = len(rec) == 1 and [_tag(x) for x in rec[0][1]] == [f'{elem}[0]', after, popped_rest + '[:]'] and not rec[0][2] and \
                     isinstance(final, tuple) and final[0] == 'from' and _tag(final[1]).startswith(f'{G}(')
             else:
-                okh = not rec and isinstance(final, tuple) and len(final) == 2 and final[0] != 'from' and \
-                    [_tag(x) for x in final] == [f'{elem}[0]', f'{elem}[1]']
+                okh = not rec and ((isinstance(final, tuple) and len(final) == 2 and final[0] != 'from' and
+                                    [_tag(x) for x in final] == [f'{elem}[0]', f'{elem}[1]']) or
+                                   (isinstance(final, Opaque) and final.tag == elem))  # the (path, is_dir) pair as it came
             if not okh:
                 bad['hand-over'].append(f'{arm}: continues with {after} (truthy={d.get(after) if after else None}): {len(rec)} recursive call(s), last yield {_tag(final)[:70] if final is not None else None}')
 
@@ -951,8 +955,10 @@ def rule_globstar_handover(ctx: Ctx, rule: str) -> None:
             has_rest = d.get('rest')
             follow = popped(0) if has_rest else None
             end = (follow is None) or d.get(f'{follow} is not None') is False
-            if follow is not None and f'{follow} is not None' not in d:
-                bad['globstar_end'].append('the end of the globstar is not decided by `following is None`')
+            # (the parts of `rest` are records, never None: whether a part follows is decided by `rest` being empty; an additional
+            # `is None` test of the popped part is accepted, not required)
+            if has_rest is None:
+                bad['globstar_end'].append('the end of the globstar is not decided by whether a part follows')
             tgt = 'None' if end else f'{follow}.pattern'
             donly = 'part.dir_only' if end else f'{follow}.dir_only'
             okg = _tag(b['curdir']) == 'curdir' and _tag(b['matcher']) == f'{GM}({tgt})' and _tag(b['dir_only']) == donly and b['deep'] is True and \
